@@ -379,7 +379,15 @@ def run(chk):
             chk.known(f["id"], "%s: %s" % (f["id"], f["summary"]))
 
     # ---- decide
-    for f in fails[:25]:
+    # at most three cases per kind of failure, so that one noisy class does not hide another in the replay file
+    per_kind = {}
+    shown = []
+    for f in fails:
+        k = (f["group"].split("@")[0], f["violation"].split('"')[0][:40])
+        per_kind[k] = per_kind.get(k, 0) + 1
+        if per_kind[k] <= 3:
+            shown.append(f)
+    for f in shown[:40]:
         chk.violation("failing-input", f)
     if not fails:
         if corr_bad:
